@@ -1,9 +1,30 @@
 """C41 Unauthenticated clients cannot access data or gain access (dbms/dbmsserver.go,
 dbmsunauth.go, auth.go)
 
-Mutation testing (scratch worktrees, VERIF_REPO=<dir> bin/vcheck C41 quick; every mutant
-compiles and keeps `go test ./dbms/...` green; all on top of the fix commits):
-  see the list at the end of this file (MUTANTS).
+Findings re-found by this check on gsuneido@90de1df (+ verif hook commit only), each
+repaired by a `fix:` commit in the worktree (see report / known-findings):
+  F2   Token/Kill/Connections/Cursors bypass DbmsUnauth (Token -> Auth(token) => authorised)
+  new  Auth("nosuchuser\0" + sha1(nonce)) => authorised (missing user => empty password hash)
+  new  Transaction/Check with a boolean byte other than 0/1 => core.Fatal (server exit), before
+       any authorisation test
+  new  a 9 byte frame (size 0, final) => assert panic in the mux reader goroutine (server exit)
+  new  Log(""), ReadCount(0), WriteCount(0) answered with success while unauthorised
+
+Mutation testing (scratch worktree on top of the fix commits, /tmp/mut/run.py,
+`VERIF_SKIP_MC=1 VERIF_REPO=<dir> bin/vcheck C41 quick`, seed 1; "tests" = go test ./dbms/ ./dbms/mux/):
+  N1  DbmsUnauth.Info returns the real Info                      tests ok    VIOLATION
+  N2  serverSession.auth does not clear the nonce                tests ok    VIOLATION
+  N3  AuthToken does not delete the token                        tests FAIL  VIOLATION
+  N4  cmdNonce keeps an existing nonce (same nonce twice)        tests ok    VIOLATION
+  N5  expireTokens never deletes old tokens                      tests ok    VIOLATION
+  N6  cmdKill calls kill() directly again                        tests ok    VIOLATION
+  N7  cmdToken calls Token() directly again                      tests ok    VIOLATION
+  N8  GetBool calls Fatal on the server again                    tests ok    VIOLATION (cls "fatal")
+  N9  mux reader asserts on an empty message again               tests ok    VIOLATION (Crash event)
+  N10 AuthUser accepts an empty password hash again              tests ok    VIOLATION
+  N11 cmdAuth removes the wrapper also for Auth("")              tests ok    VIOLATION
+  N12 expireNonces never clears an old nonce                     tests FAIL  VIOLATION
+(VERIF_SKIP_MC=1 skips only the exhaustive TLC runs of the unchanged model.)
 """
 import json, os
 
@@ -35,8 +56,17 @@ def run(ctx):
     drv = ctx.go_build("session")
     trace = ctx.work + "/session.ndjson"
     nscen, steps = (40, 300) if ctx.thorough() else (8, 220)
-    rc, out, summ = ctx.driver(drv, [trace, nscen, steps], timeout=1500, env={"VERIF_FLUSH": "1"})
+    import vlib
+    infra = None
+    try:
+        rc, out, summ = ctx.driver(drv, [trace, nscen, steps], timeout=1500, env={"VERIF_FLUSH": "1"})
+    except vlib.Infra as ex:
+        # the driver gave up (harness error): what it recorded until then is still a real
+        # execution; only if that prefix is accepted is this an infrastructure error
+        infra, rc, out, summ = ex, 0, "", {}
     nlines = sum(1 for _ in open(trace)) if os.path.exists(trace) else 0
+    if nlines == 0:
+        raise infra or vlib.Infra("session driver recorded nothing")
     if rc != 0:
         # the process hosting the REAL server died (Go panic in a server goroutine,
         # exit status 2): record what the runner observed after the last request
@@ -51,6 +81,8 @@ def run(ctx):
     if not res["accepted"]:
         ctx.report_rejection(trace, res)
         return
+    if infra:
+        raise infra
     if summ.get("requests", 0) < 50 * nscen or summ.get("codes_unauth", 0) < 41:
         import vlib
         raise vlib.Infra("session driver produced too little: %s" % summ)
